@@ -14,8 +14,6 @@ package main
 import (
 	"encoding/json"
 	"fmt"
-	"os"
-	"runtime/pprof"
 	"sort"
 	"strings"
 	"time"
@@ -182,6 +180,21 @@ func firstDiff(a, b interface{}, path string) string {
 		y, ok := b.([]interface{})
 		if !ok {
 			return path + ": array vs " + hx.Canon(b)
+		}
+		// collections of named things: report a difference of the name lists as such
+		xn, yn := []string{}, []string{}
+		for _, e := range x {
+			if n := asStr(asObj(e)["name"]); n != "" {
+				xn = append(xn, n)
+			}
+		}
+		for _, e := range y {
+			if n := asStr(asObj(e)["name"]); n != "" {
+				yn = append(yn, n)
+			}
+		}
+		if len(xn) == len(x) && len(yn) == len(y) && len(x)+len(y) > 0 && hx.Canon(xn) != hx.Canon(yn) {
+			return fmt.Sprintf("%s: names real=%s model=%s", path, hx.Canon(xn), hx.Canon(yn))
 		}
 		for i := 0; i < len(x) && i < len(y); i++ {
 			p := fmt.Sprintf("%s[%d]", path, i)
@@ -472,6 +485,7 @@ type modelDefault struct {
 }
 
 type modelResp struct {
+	WF       bool           `json:"wf"`
 	Tree     interface{}    `json:"tree"`
 	Closure  []string       `json:"closure"`
 	Defaults []modelDefault `json:"defaults"`
@@ -505,12 +519,6 @@ func locate(tree interface{}, owner string) (interface{}, bool) {
 
 func main() {
 	run := hx.Begin("C10")
-	if p := os.Getenv("C10_CPUPROFILE"); p != "" {
-		if f, err := os.Create(p); err == nil {
-			pprof.StartCPUProfile(f)
-			defer pprof.StopCPUProfile()
-		}
-	}
 	drv, err := hx.StartDriver(run.DriverBin)
 	if err != nil {
 		run.CheckError("cannot start driver: " + err.Error())
@@ -530,6 +538,16 @@ func main() {
 		defer func() { stage["total"] += time.Since(tb).Seconds() }()
 		err := build(c, w)
 		stage["build"] += time.Since(tb).Seconds()
+		if c.Invalid != "" {
+			// the configuration breaks a construction rule the theorems assume: it must not become a schema
+			run.Case(hx.Canon(c), true, nil)
+			if err == nil {
+				run.Violation("NewSchema accepted a configuration that is not well-formed ("+c.Invalid+"): the hypotheses of possibleTypes_nodup / default_roundtrip are not consequences of construction", map[string]interface{}{"case": c}, false)
+				return
+			}
+			run.Tag("invalid-config-rejected:" + c.Invalid)
+			return
+		}
 		if err != nil {
 			run.Tag("schema-rejected")
 			if run.Res.Histogram["schema-rejected"] <= 3 {
@@ -540,13 +558,6 @@ func main() {
 		supplied := append(append([]string{}, c.Initial...), c.Appended...)
 		var m modelResp
 		req := map[string]interface{}{"schema": c.Desc, "supplied": supplied, "depth": c.Depth}
-		if p := os.Getenv("C10_DUMP_REQUESTS"); p != "" {
-			if f, err := os.OpenFile(p, os.O_APPEND|os.O_CREATE|os.O_WRONLY, 0o644); err == nil {
-				b, _ := json.Marshal(req)
-				f.Write(append(b, '\n'))
-				f.Close()
-			}
-		}
 		t0 := time.Now()
 		if err := drv.Ask(req, &m); err != nil {
 			run.CheckError(err.Error())
@@ -559,6 +570,11 @@ func main() {
 				out[k] = v
 			}
 			return out
+		}
+
+		if !m.WF {
+			run.Violation("NewSchema built a schema that violates the well-formedness hypotheses of the C10 theorems (wfInputTypes / membersOnce)", replay(nil), false)
+			return
 		}
 
 		// ---- full query
@@ -746,7 +762,7 @@ func main() {
 		return
 	}
 
-	n := run.N(150, 20000)
+	n := run.N(120, 20000)
 	for i := 0; i < n && !run.TooManyViolations(); i++ {
 		r := hx.Fork(run.Seed, i)
 		c := genCase(r)
